@@ -425,6 +425,18 @@ def run_case(case, rec, mon=None):
                 mon.v("angular_to_hertz(hertz_to_angular(%r, %r)) = %r" % (hz, rate, hz2), check="angular_roundtrip", hz=hz, rate=rate)
             if not abs(a - 2 * math.pi * hz / rate) <= 4e-15 * abs(a):
                 mon.v("hertz_to_angular(%r, %r) = %r, expected 2 pi f / rate" % (hz, rate, a), check="angular_value", hz=hz, rate=rate)
+        # the same frequency asked first as a single-precision NumPy scalar (a value read from a float32 array), then as a Python number:
+        # what an earlier caller passed does not decide the precision the next one gets
+        for hz, rate in ((300.0, 8000.0), (1000.0, 16000), (62.5, 44100.0), (440.0, 22050.0), (3.0, 8.0)):
+            first = U.hertz_to_angular(np.float32(hz), rate)
+            U.hertz_to_angular(np.float16(hz), rate)
+            a = U.hertz_to_angular(hz, rate)
+            hz2 = float(U.angular_to_hertz(a, rate))
+            rec.ev()
+            rec.count("angular_values_asked_again_after_a_single_precision_caller")
+            if not abs(float(a) - 2 * math.pi * hz / rate) <= 4e-15 * abs(2 * math.pi * hz / rate) or not abs(hz2 - hz) <= 4e-14 * abs(hz):
+                mon.v("hertz_to_angular(%r, %r) = %r after the same frequency was asked as a float32 scalar (2 pi f / rate = %r; back: %r)" % (hz, rate, float(a), 2 * math.pi * hz / rate, hz2),
+                      check="angular_value", hz=hz, rate=rate)
         rec.sample({"kind": kind, "last": {"hz": hz, "rate": rate}})
     if own:
         monitor.report(rec)
